@@ -9,6 +9,7 @@ import shutil
 from .. import tlc
 from ..core import MachineryError
 from . import c08
+from .. import looptrace
 from .dataloops import Merged
 
 CHUNK = 30000
@@ -68,6 +69,7 @@ def stage(ck, thorough):
                 flagged[t[1]] = byid[t[1]]
         del records[:]
 
+    every, step_recs = (9 if thorough else 3), []
     for s in sigs:
         sig = [dict(p, _default=p["def"]["n"] if p["hasdef"] else None, _alias=None) for p in s["sig"]]
         try:
@@ -85,10 +87,28 @@ def stage(ck, thorough):
             kwreal = {own.get(a, a): b for a, b in kw.items()}
             r = c08.one_call(sig, "function", fdec, fraw, dlog, rlog, pos, kw, kwreal)
             ck.keys.add("U|%s|%d|%s|%s" % (src, len(pos), ",".join(sorted(kw)), r["ok"]))
+            if k % every == 0:
+                steps = looptrace.observe_steps(lambda: fdec(*pos, **kw), c08.val, lambda e: type(e).__name__, names=("parse_params",))
+                if steps:
+                    step_recs.append({"id": "ws%d" % k, "sig": s["sig"], "call": cl, "steps": steps})
             records.append({"id": "u%d" % k, "kind": "call", "sig": s["sig"], "ctx": "function", "call": cl, "r": r, "src": src,
                             "callrepr": "f(%s)" % ", ".join([repr(v) for v in pos] + ["%s=%r" % kv for kv in kw.items()])})
         if len(records) >= CHUNK:
             flush()
     flush()
     ck.count("universe_calls_replayed_into_code", k)
+    sres = tlc.judge("Trace_WrapSteps", "Trace_WrapSteps.cfg", step_recs, workers=16)
+    nsnap = sum(len(r["steps"]) for r in step_recs)
+    if sres.distinct != nsnap:
+        raise MachineryError("trace acceptance (wrapper steps): TLC visited %d states, expected %d" % (sres.distinct, nsnap))
+    ck.states += sres.distinct
+    ck.transitions += sres.generated
+    ck.count("wrapper_snapshots_validated_against_FuncWrap_actions", nsnap)
+    sdv = sres.tagged("DIV")
+    if sdv:
+        ck.count("wrapper_step_divergences", len(sdv))
+        byid = {r["id"]: r for r in step_recs}
+        for t in sdv[:5]:
+            r = byid[t[1]]
+            ck.note("divergence at step %s of %s: FuncWrap differs from parse_params on %s" % (t[3], t[2], json.dumps(r["call"])[:160]))
     return merged, flagged
